@@ -59,6 +59,15 @@ def gen_cases(tier, seed):
                 for pos in range(0, len(base) + 1, step):
                     sched = base[:pos] + [3] * len(killer) * 3 + base[pos:]
                     add(mode, progs, sched + drain(progs), "systematic-" + cause, pos > 0)
+    # transport failure at byte offsets inside a burst (header byte 0..6, payload middle)
+    for off in (1, 3, 6, 7, 8, 9, 12, 40, 900):
+        for mode in ("plain", "start"):
+            for kinds in (("writer", "reader"), ("opener", "writer")):
+                progs = [[], worker(r, 1, kinds[0]), worker(r, 2, kinds[1]), ["FAIL:%d" % off, "B0", "W:2:77:ffff"]]
+                for pos in (0, 3, 6, 9, 13):
+                    base = [1, 2] * 9
+                    sched = base[:pos] + [3] * 9 + base[pos:]
+                    add(mode, progs, sched + drain(progs), "midburst-fail", True)
     # random
     n = 600 if tier == "quick" else 15000
     for i in range(n):
@@ -83,12 +92,18 @@ def gen_cases(tier, seed):
     return cs
 
 
+def midburst(c):
+    return any(a.startswith("FAIL:") for a in c.args)
+
+
 def oracle(c, ir):
     o = parse_out(ir)
     if o is None:
         return "unparsable implementation output: " + ir[:200]
     frames = [f for _, fr in o["bursts"] for f in fr]
-    if "STRAY" in frames:
+    if "TRUNCATED" in frames and not midburst(c):
+        return "a burst on the transport was cut although no fault was injected inside it: %s" % ir[:300]
+    if "STRAY" in frames and not midburst(c):
         return "a complete burst on the transport does not parse as whole frames: %s" % ir[:300]
     args = " ".join(c.args)
     progs = [p.split() for p in args.split(" sched ")[0].split("|")[1:]]
@@ -125,4 +140,7 @@ def oracle(c, ir):
 
 
 def same(c, ir, mr):
+    if midburst(c):
+        # a fault inside a burst leaves a partial burst on the real transport; compare everything but the wire
+        return ir.split("|", 1)[-1] == mr.split("|", 1)[-1] and ir.split("W", 1)[0] == mr.split("W", 1)[0]
     return ir == mr
